@@ -322,11 +322,101 @@ def kind_path(rng, k, v):
 # cases
 # ------------------------------------------------------------------------------------------------
 
+def closed_coll(rng, typ, depth=1):
+    """a collection with one to three required (or, rarely, optional) known entries and a closed unknown"""
+    known = []
+    if typ == "a":
+        for i in range(rng.choice([1, 1, 2, 3])):
+            known.append([str(i), rand_kind(rng, depth - 1 if depth > 0 else 0, opt=0.1)])
+    else:
+        for f in sorted(rng.sample(FIELDS, rng.choice([1, 2, 2, 3])), key=lambda s: s.encode()):
+            known.append([hexs(f), rand_kind(rng, depth - 1 if depth > 0 else 0, opt=0.1)])
+    return C(known, U_NONE if rng.random() < 0.7 else rand_unknown(rng, 0))
+
+
+def oa_kind(rng):
+    """a kind whose only alternatives are an object and an array (is_collection, not is_exact), with known
+    fields / indices; sometimes one level down inside an object field or an array element"""
+    k = K("", closed_coll(rng, "a"), closed_coll(rng, "o"))
+    r = rng.random()
+    if r < 0.6:
+        return k, []
+    if r < 0.8:
+        f = hexs(rng.choice(FIELDS))
+        return K("", None, C([[f, k]], U_NONE)), [{"f": f}]
+    return K("", C([["0", k]], U_NONE), None), [{"i": "0"}]
+
+
+def oa_member(rng, k, prefix):
+    """a member of an oa_kind, from the array or the object alternative with equal probability"""
+    node = k
+    for sg in prefix:
+        node = dict(node["o"]["k"])[sg["f"]] if "f" in sg else dict(node["a"]["k"])[sg["i"]]
+    alt = K("", node["a"], None) if rng.random() < 0.5 else K("", None, node["o"])
+    v = member_of(rng, alt)
+    for sg in reversed(prefix):
+        v = vlib.jo([(sg["f"], v)]) if "f" in sg else vlib.ja([v])
+    return v, node
+
+
+def gen_targeted(rng):
+    """shapes the random generator reaches too rarely: object-or-array kinds read / written / removed through
+    field and index paths with members of both alternatives; subtype tests against a closed collection that
+    lacks a required known entry"""
+    r = rng.random()
+    if r < 0.7:
+        k, prefix = oa_kind(rng)
+        try:
+            v, node = oa_member(rng, k, prefix)
+        except ValueError:
+            return None
+        segs = [{"f": f} for f, _ in node["o"]["k"]] + [{"i": i} for i, _ in node["a"]["k"]]
+        segs += [{"f": hexs(rng.choice(FIELDS))}, {"i": str(rng.randint(-3, 4))}]
+        p = prefix + [rng.choice(segs)]
+        if rng.random() < 0.2:
+            p.append(gen.rand_seg(rng))
+        op = rng.choice(["get", "get", "insert", "remove"])
+        if op == "get":
+            return {"op": "get", "k": k, "v": v, "p": p}
+        if op == "insert":
+            kx = rand_kind(rng, 1)
+            return {"op": "insert", "k": k, "v": v, "p": p, "kx": kx, "x": value_for(rng, kx)}
+        return {"op": "remove", "k": k, "v": v, "p": p, "compact": rng.random() < 0.5}
+    # superset: b is a closed collection, a requires an entry b does not mention (possibly one level down)
+    typ = rng.choice(["a", "o"])
+    big = closed_coll(rng, typ, 0)
+    big["u"] = rng.choice([U_NONE, U_NONE, U_ANY])
+    small = json.loads(json.dumps(big))
+    small["u"] = U_NONE
+    if typ == "a":
+        del small["k"][-1:]
+    else:
+        del small["k"][rng.randrange(len(small["k"]))]
+    a = K("", big, None) if typ == "a" else K("", None, big)
+    b = K("", small, None) if typ == "a" else K("", None, small)
+    if rng.random() < 0.4:
+        f = hexs(rng.choice(FIELDS))
+        a, b = K("", None, C([[f, a]], U_NONE)), K("", None, C([[f, b]], U_NONE))
+    if rng.random() < 0.15:
+        a, b = b, a
+    try:
+        v = member_of(rng, b)
+    except ValueError:
+        return None
+    return {"op": "superset", "a": a, "b": b, "v": v}
+
+
 def gen_cases(run, n):
     rng = run.rng
     cases = []
     for _ in range(n):
         r = rng.random()
+        if r < 0.12:
+            c = gen_targeted(rng)
+            if c is not None:
+                cases.append(c)
+                continue
+            r = rng.random()
         if r < 0.2:
             k = rand_top_kind(rng)
             v = value_for(rng, k)
